@@ -356,13 +356,9 @@ func checkC13(c *Ctx) (string, []string) {
 		}
 	}
 
-	c.Rule("C13.minimality", "the protocol decoder's natural-number reader rejects non-minimal encodings (rule shared with C12)", 2)
+	c.Rule("C13.minimality", "the protocol decoder's natural-number reader accepts exactly the canonical encodings: truncated and non-minimal strings fail on every path, canonical ones succeed with the defined value (bit-provenance abstract interpretation shared with C12.decoded-value)", 12)
 	if f := c.Fn(typesPkg, "Decoder.DecodeUint"); f != nil {
-		before := len(c.Obls)
-		c12Minimality(c, f)
-		for i := before; i < len(c.Obls); i++ {
-			c.Obls[i].Rule = "C13.minimality"
-		}
+		c12DecodedValue(c, f, "C13.minimality")
 	}
 	// DecodeLength / DecodeInteger go through decodeUintFromReader -> DecodeUint
 	for _, m := range []string{"Decoder.DecodeLength", "Decoder.DecodeInteger", "Decoder.decodeUintFromReader"} {
